@@ -31,7 +31,7 @@ E == Rec[l]
 IsEvent(name) == l <= N /\ E.e = name
 
 \* real machine words -> the model's word space
-W(x) == IF IsInt(x) THEN x ELSE IF x.q = 2 /\ x.o < 0 THEN MOD + x.o ELSE -1
+W(x) == IF x < 1000000000 THEN x ELSE IF x > 1900000000 THEN MOD - (2000000000 - x) ELSE -1
 
 ModelKind(k) ==
   CASE k \in {"slice", "vecref", "arrref", "cloned_slice", "copied_slice", "numslice"} -> "slice"
